@@ -66,3 +66,7 @@ check("C03", "translation_validation", "Hypothesis schema grammar + repository c
       "Each generated schema is compiled by protoc (descriptor set = ground truth) and by the plugin under test; the generated packages are imported and every class is matched (by unique markers) and compared field by field - number, proto type, cardinality from resolved hints and metadata, oneof group, wrapper / Timestamp / Duration mapping, target class identity, enum numbers. The repository's tests/inputs corpus and every bundled descriptor / well-known-type class are checked completely.",
       "Programs are sampled from a grammar (bundled classes and the repository corpus are exhaustive); the plugin runs with an identity stand-in for ruff.",
       "DESIGN.md 3/C03")
+check("C13", "exploration", "exhaustive enumeration of package-pair topologies (+ all-at-once schemas), class-identity oracle",
+      "Schemas are generated per ordered pair of package paths (depth 0-3 over {a,b}) with every reference site x referenced kind, and all-at-once schemas with package-level cycles and well-known types; after import every resolved type hint and every rpc request / reply type must be the identical class object found (by marker) in the target package, and values must survive a round trip through the referencing field.",
+      "Quick runs the all-at-once schemas and a seed-selected quarter of the 225 pairs; thorough enumerates all pairs (exhaustive) plus alias-collision shapes with a third path component.",
+      "DESIGN.md 3/C13")
